@@ -11,7 +11,7 @@ struct Local { uint64_t strings = 0, accepted = 0, calls = 0; uint64_t kinds[5] 
 
 template <class C> struct Runner {
     FenceBuf fb; Ledger led; Ctx *ctx; Local *lc;
-    Runner(Ctx *c, Local *l) : fb(4), ctx(c), lc(l) {}
+    Runner(Ctx *c, Local *l, size_t pages = 4) : fb(pages), ctx(c), lc(l) {}
     void bad(const Str &s, const char *entry, const Str &what) { ctx->violation("", s, fmt("%s entry=%s type=%s", what.c_str(), entry, Api<C>::name())); }
     void cmp_comp(const Str &s, const char *entry, const char *name, const RangeObs &o, const ref::Comp &e) {
         if (o.kind == 3) { bad(s, entry, fmt("%s range malformed (one pointer NULL or first > afterLast)", name)); return; }
@@ -70,7 +70,7 @@ template <class C> struct Runner {
 
 struct Both {
     Local lc; Runner<char> ra; Runner<wchar_t> rw; Ctx &ctx;
-    Both(Ctx &c) : ra(&c, &lc), rw(&c, &lc), ctx(c) {}
+    Both(Ctx &c, size_t pages = 4) : ra(&c, &lc, pages), rw(&c, &lc, pages), ctx(c) {}
     void run(const char *s, int n, bool all_entries) {
         ctx.progress++; lc.strings++;
         DfaRun d = dfa_run<char>(s, n); Str s8(s, n); ref::RUri e; bool ok = ref::decompose(s8, e);
@@ -91,20 +91,22 @@ void run(Ctx &ctx) {
     if (z.octets) octet_product(ctx, [&](const Str &s) { b.run(s.data(), (int)s.size(), true); });
     uint64_t idx = 0;
     shape_product(ctx.secondary ? 0 : ctx.quick() ? 1 : 2, [&](const Str &s) { if (ctx.mine(idx++)) b.run(s.data(), (int)s.size(), true); });
+    { Both bs(ctx, 520); uint64_t si = 0; stretch_family(ctx.secondary ? 0 : ctx.quick() ? 1 : 2, [&](const Str &s) { if (ctx.mine(si++) && !ctx.expired()) { bs.run(s.data(), (int)s.size(), true); ctx.st.count("stretch_family"); } });
+      b.lc.strings += bs.lc.strings; b.lc.accepted += bs.lc.accepted; b.lc.calls += bs.lc.calls; for (int i = 0; i < 5; i++) b.lc.kinds[i] += bs.lc.kinds[i]; b.lc.empty_components += bs.lc.empty_components; b.lc.placeholder_empty += bs.lc.placeholder_empty; for (auto &x : bs.lc.shapes) b.lc.shapes.insert(x); }
     ctx.st.count("evaluations", b.lc.strings); ctx.st.count("accepted_strings", b.lc.accepted); ctx.st.count("parse_results_compared", b.lc.calls);
     ctx.st.count("host_regname", b.lc.kinds[1]); ctx.st.count("host_ip4", b.lc.kinds[2]); ctx.st.count("host_ip6", b.lc.kinds[3]); ctx.st.count("host_ipfuture", b.lc.kinds[4]);
     ctx.st.count("empty_components", b.lc.empty_components); ctx.st.count("empty_components_using_placeholder", b.lc.placeholder_empty);
     for (auto &s : b.lc.shapes) ctx.st.distinct("shapes", s);
     if (ctx.worker == 0) { ctx.st.sample("s://u:p@[A:b::1.2.3.4]:80/a/./b/../c?a=b&c=%41%2f/?#%41/?"); ctx.st.sample("//@:"); ctx.st.sample("//[::1.2.3.4]"); ctx.st.count("param_k", z.k); ctx.st.count("param_L", z.L); }
 }
-void replay(Ctx &ctx, const Str &enc) { Both b(ctx); b.run(enc.data(), (int)enc.size(), true); }
+void replay(Ctx &ctx, const Str &enc) { Both b(ctx, 520); b.run(enc.data(), (int)enc.size(), true); }
 Str coverage(const Ctx &, const Stats &st) {
     return jkv("states", DFA_NSTATES) + ", " + jkv("transitions", (uint64_t)(DFA_NSTATES - 1) * 256) + ", " + jkv("traces_validated_against_impl", st.get("parse_results_compared")) + ", " +
            jkv("evaluations", st.get("evaluations")) + ", " + jkv("distinct_nontrivial", st.nset("shapes")) + ", " +
            jkvs("rule", "cases = strings of the C01 sets (W-method set with k, class brute force to L, IPv6/IPvFuture/dec-octet products) plus the shape product; every ACCEPTED string is parsed through the entry points in both character types and every reported component is compared (presence, text, offset into the input) with the reference Appendix-B decomposition. distinct_nontrivial = number of distinct component shapes (scheme/authority/userinfo/host kind/port/query/fragment presence x segment count) among accepted strings.") + ", " +
            jkv("accepted_strings", st.get("accepted_strings")) + ", " + jkv("host_regname", st.get("host_regname")) + ", " + jkv("host_ip4", st.get("host_ip4")) + ", " + jkv("host_ip6", st.get("host_ip6")) + ", " + jkv("host_ipfuture", st.get("host_ipfuture")) + ", " +
            jkv("empty_components", st.get("empty_components")) + ", " + jkv("empty_components_using_placeholder", st.get("empty_components_using_placeholder")) + ", " +
-           jkv("k_extra_states", st.get("param_k")) + ", " + jkv("bruteforce_length", st.get("param_L")) + ", " + jsamples(st);
+           jkv("k_extra_states", st.get("param_k")) + ", " + jkv("bruteforce_length", st.get("param_L")) + ", " + jkv("stretch_family_strings", st.get("stretch_family")) + ", " + jsamples(st);
 }
 Check chk = { "C02", "model_checking", run, replay, coverage, "reference decomposition (harness/ref.cpp, RFC 3986 Appendix B + component grammar) agrees with the spec DFA on every enumerated string (checked on every run)|IPv6 value per RFC 4291 text form" };
 REGISTER_CHECK(chk);
